@@ -54,7 +54,13 @@ fn make(rng: &mut ChaCha20Rng, m: &[u8], e: &[u8], t: u32, n: usize, aux_len: us
     s.reports.push(b);
     s.auxes.push(a);
   }
-  // positive control: t distinct honest shares recover
+  // positive control: t distinct honest shares recover (O(t^2) field inversions:
+  // above 600 the control is replaced by a marker and the monitor only uses the
+  // parsed share points)
+  if t > 600 {
+    s.seed = Some(vec![0xEE; 5]);
+    return Ok(s);
+  }
   let full: Option<Vec<Share>> = s.shares[..t as usize].iter().map(|b| Share::from_bytes(b)).collect();
   if let Some(f) = full {
     if let Ok(c) = share_recover(&f) {
@@ -519,7 +525,7 @@ fn shape(rec: &mut Rec, _ctx: &Ctx, idx: u64, rng: &mut ChaCha20Rng, global: &Mu
 /// thresholds beyond every 8-bit boundary: t-1 (and 255, 256) honest distinct
 /// shares must not recover, and must not interpolate to the sharing key
 fn large_threshold(rec: &mut Rec, ctx: &Ctx, idx: u64, rng: &mut ChaCha20Rng) {
-  let ts: &[u32] = if ctx.thorough() { &[256, 257, 300, 511, 512, 513, 1000, 1025] } else { &[256, 257, 300, 513] };
+  let ts: &[u32] = if ctx.thorough() { &[256, 257, 300, 511, 512, 513, 1000, 1024, 1025, 1100, 2049] } else { &[256, 257, 300, 513, 1025, 1100] };
   let t = ts[(idx as usize) % ts.len()];
   let m = rand_bytes_in(rng, 8..40);
   let e = rand_bytes_in(rng, 0..6);
@@ -539,15 +545,15 @@ fn large_threshold(rec: &mut Rec, ctx: &Ctx, idx: u64, rng: &mut ChaCha20Rng) {
   let sh = [&s];
   let tu = t as usize;
   for k in [tu - 1, 255, 256, tu / 2] {
-    if k >= tu || k == 0 {
-      continue;
+    if k >= tu || k == 0 || (tu > 600 && k > 300) {
+      continue; // recovery attempts over > 300 shares cost O(k^2) inversions; the attacker below covers them
     }
     let coll: Vec<Item> = (0..k).map(|i| (0usize, i, None)).collect();
     run_collection(rec, &sh, &coll, "large-threshold:k-distinct-honest", idx);
   }
   let pts: Vec<(BigUint, BigUint)> = s.parsed.iter().map(|p| (p.s.x_int(), p.s.y_int(0))).collect();
   if let Some(k_true) = bf::lagrange_at_zero(&pts[..tu]) {
-    for k in [tu - 1, 255, 256] {
+    for k in [tu - 1, 255, 256, 1024, 2048] {
       if k >= tu {
         continue;
       }
@@ -571,7 +577,7 @@ pub fn run(ctx: &Ctx) -> Rec {
   // the shape stream includes deliberate neighbours: every 4 consecutive cases
   // share a measurement and differ in epoch or threshold only
   rec.merge(par_run(ctx, "shape", ctx.n(2400, 100_000), |rec, i, rng| shape(rec, ctx, i, rng, &global)));
-  rec.merge(par_run(ctx, "large-threshold", ctx.n(4, 48), |rec, i, rng| large_threshold(rec, ctx, i, rng)));
+  rec.merge(par_run(ctx, "large-threshold", ctx.n(6, 55), |rec, i, rng| large_threshold(rec, ctx, i, rng)));
   rec.note("global_coefficient_set", json!(global.lock().unwrap().len()));
   rec
 }
